@@ -9,4 +9,4 @@ def main : IO Unit :=
     xAngleSet := Gen.C10.surface_x_angle_set, xAngleDefault := Gen.C10.surface_x_angle_default,
     surfaceY := Gen.C10.surface_y, transposed := Gen.C10.interp_grid_transposed,
     stripKind := Gen.C10.spline_strip, faceTest := Gen.C10.spline_face, centre := Gen.C10.spline_centre, width := Gen.C10.spline_width, usableDefault := Gen.C10.spline_usable_default,
-    depth := Gen.C10.spline_depth, arrOps := Gen.C10.spline_array_ops, table := Gen.C10.table }
+    depth := Gen.C10.spline_depth, arrOps := Gen.C10.spline_array_ops, rollTables := Gen.C10.roll_tables, table := Gen.C10.table }
